@@ -24,6 +24,8 @@ def harnesses(ctx, tier):
         unit("atoms_ascii_wide", 5, ["-DVF_FLAGS=(STRING_FLAGS_ASCII|STRING_FLAGS_WIDE)"], desc="atoms.c: yr_atoms_extract_from_string ascii|wide"),
         unit("atoms_xor", 5, ["-DVF_FLAGS=(STRING_FLAGS_ASCII|STRING_FLAGS_XOR)"], desc="atoms.c: yr_atoms_extract_from_string ascii xor(1-2)"),
         unit("sizedstr", 7, uf={"strlen": 4}, desc="sizedstr.c: ss_new, ss_dup"),
+        unit("rules_from_arena", 8, uf={"_yr_arena_allocate_memory": 6, "yr_arena_release": 14, "yr_rules_from_arena": 3, "yr_rules_destroy": 3, "memset": 80},
+             desc="rules.c: yr_rules_from_arena on a minimal well-formed arena, then yr_rules_destroy"),
         Harness(name="H1_ac_slot_growth", src="c16/ac_slot_fail.c", unwind=6, timeout=600, unwind_funcs={"_yr_arena_allocate_memory": 12, "yr_arena_release": 14}, leak_check=True,
                 desc="ahocorasick.c: transition-table growth (two arena growths + bitmask realloc) with every allocation failing independently",
                 bounds="slot 0..300, table of 300 entries", functions=["_yr_ac_find_suitable_transition_table_slot"], stubs=["yr_bitmask_find_non_colliding_offset -> any offset"]),
